@@ -86,6 +86,7 @@ pub struct C05Result {
   pub schedules: Vec<Option<Vec<(u64, usize)>>>,
   pub switches: u64,
   pub trace: Vec<String>,
+  pub site_pairs: std::collections::BTreeSet<(String, String)>,
 }
 
 pub fn check_case(case: &C05Case, keep_trace: bool) -> C05Result {
@@ -101,6 +102,7 @@ pub fn check_case(case: &C05Case, keep_trace: bool) -> C05Result {
   let mut schedules = vec![];
   let mut switches = 0;
   let mut trace = vec![];
+  let mut site_pairs = std::collections::BTreeSet::new();
   let flags = RunFlags {
     keep_trace,
     consume: false,
@@ -154,6 +156,7 @@ pub fn check_case(case: &C05Case, keep_trace: bool) -> C05Result {
     log_hash = splitmix64(log_hash ^ out.stats.log_hash);
     schedules.push(Some(out.stats.deviations.clone()));
     switches += out.stats.switches;
+    site_pairs.extend(out.stats.site_pairs.iter().cloned());
     counters.add("decisions", out.stats.decisions);
     counters.add("switches", out.stats.switches);
     for (k, v) in &out.stats.blocked {
@@ -248,6 +251,7 @@ pub fn check_case(case: &C05Case, keep_trace: bool) -> C05Result {
     schedules,
     switches,
     trace,
+    site_pairs,
   }
 }
 
@@ -350,6 +354,7 @@ impl C05 {
       skipped: false,
       case: serde_json::to_value(&c).unwrap(),
       outcome_hash: oh,
+      site_pairs: res.site_pairs.clone(),
     }
   }
 }
